@@ -111,6 +111,36 @@ func runC08(c *Ctx) {
 			}
 		}
 	}
+	// … and stays: once announced, Respond neither removes nor replaces the header (whatever the status or method)
+	if ctSet != nil {
+		for _, ci := range allCalls(f) {
+			name := calleeName(ci.Common())
+			if ci == ctSet || (name != "(net/http.Header).Del" && name != "(net/http.Header).Set" && name != "(net/http.Header).Add" && name != "builtin delete") {
+				continue
+			}
+			_, a := callArgs(ci.Common())
+			ki := 0
+			if name == "builtin delete" {
+				ki = 1
+			}
+			if len(a) <= ki {
+				continue
+			}
+			if k, ok := constString(a[ki]); !ok || !strings.EqualFold(k, "Content-Type") {
+				continue
+			}
+			if !pathExists(f, ctSet, ci, nil, nil) {
+				continue
+			}
+			if name == "(net/http.Header).Set" || name == "(net/http.Header).Add" {
+				// re-announcing the format, or the JSON default of the error branch when nothing was negotiated
+				okV := isFormat(a[1]) || guardedBy(ci, nil, factEqString(isFormat, "", true))
+				c.obI("R08.2", ci, "negotiated-content-type-kept", okV, "the Content-Type announced from the negotiated format stays on the response: Respond never deletes or replaces it afterwards", baseName(name)+" of Content-Type with another value after it was set from the negotiated format")
+				continue
+			}
+			c.obD("R08.2", ci, "negotiated-content-type-kept", false, "the Content-Type announced from the negotiated format stays on the response: Respond never deletes or replaces it afterwards", baseName(name)+" of Content-Type after it was set from the negotiated format")
+		}
+	}
 	succ := callsIn(f, "(*github.com/go-openapi/spec.Operation).SuccessResponse")
 	var codeV ssa.Value
 	if len(succ) == 1 {
